@@ -10,6 +10,7 @@ import (
 	"os"
 	"path/filepath"
 	"slices"
+	"sync/atomic"
 	"time"
 
 	"github.com/superfly/ltx"
@@ -24,6 +25,9 @@ func init() {
 
 // ReplicaClientType is the client type for this package.
 const ReplicaClientType = "file"
+
+// tmpFileSeq distinguishes the temporary files of concurrent WriteLTXFile calls.
+var tmpFileSeq atomic.Uint64
 
 var _ litestream.ReplicaClient = (*ReplicaClient)(nil)
 var _ litestream.ReplicaClientV3 = (*ReplicaClient)(nil)
@@ -181,7 +185,9 @@ func (c *ReplicaClient) WriteLTXFile(ctx context.Context, level int, minTXID, ma
 	}
 
 	// Write LTX file to temporary file next to destination path.
-	tmpFilename := filename + ".tmp"
+	// The temporary name is unique per call so that concurrent writers of the same
+	// LTX file never share (and truncate) each other's staging file.
+	tmpFilename := fmt.Sprintf("%s.%d.%d.tmp", filename, os.Getpid(), tmpFileSeq.Add(1))
 	f, err := internal.CreateFile(tmpFilename, fileInfo)
 	if err != nil {
 		return nil, err
